@@ -121,7 +121,7 @@ class Pool:
                 time.sleep(0.05)
 
 
-def plan(prop, units, tier, seed, nworkers, scale, known, scratch, round_no, muted, only=None):
+def plan(prop, units, tier, seed, nworkers, scale, known, scratch, round_no, muted, only=None, qscale=1.0):
     tasks = []
     for u in units:
         if only and u.name not in only:
@@ -132,7 +132,7 @@ def plan(prop, units, tier, seed, nworkers, scale, known, scratch, round_no, mut
             shards = u.shards if u.shards is not None else nworkers
         # thorough budgets in the property modules are nominal; VERIF_THOROUGH_SCALE (default 0.5) keeps a full thorough
         # sweep of the 20 properties within a few hours on 16 cores (set it to 1 or more for a deeper run)
-        tscale = float(os.environ.get("VERIF_THOROUGH_SCALE", "0.5")) if tier == "thorough" else 1.0
+        tscale = float(os.environ.get("VERIF_THOROUGH_SCALE", "0.5")) if tier == "thorough" else qscale
         budget = max(1, int(u.budget * scale * tscale)) if u.scalable else u.budget
         per = max(1, budget // shards) if u.kind == "hyp" else budget
         for s in range(shards):
@@ -215,7 +215,9 @@ def main(argv=None):
     rounds = 0
     try:
         while True:
-            tasks = plan(prop, units, tier, seed, args.workers, args.scale, known, scratch, rounds, muted, only)
+            # the budgets in the property modules were set on a machine that was (unknowingly) half busy; on 16 free cores the
+            # quick tier has room for twice as many generated cases per property within about a minute (QUICK_SCALE)
+            tasks = plan(prop, units, tier, seed, args.workers, args.scale, known, scratch, rounds, muted, only, float(getattr(mod, "QUICK_SCALE", 2.0)))
             if rounds == 0 and not only and load_regress(prop):
                 tasks.insert(0, dict(tasks[0] if tasks else {}, prop=prop, unit="__regress__", tier=tier, shard=0, nshards=1, seed=seed, budget=0,
                                      round=0, known_keys=sorted(known), muted=[], timeout_s=None,
